@@ -1758,6 +1758,103 @@ func c03ForeignSubs(c *fw.Ctx, i int, hk string) {
 	e.finish(all)
 }
 
+
+// scenario 6: sessions refused by access control. Simple-auth is on for every protocol and direction;
+// publishers and players with a missing or wrong secret are turned away while an authorised publisher
+// and an authorised player of each protocol are attached. Refused sessions get no notification at all
+// (in particular no stop without a start), admitted ones exactly one pair, and the stat API lists only
+// the admitted ones.
+func c03AuthRefusals(c *fw.Ctx, i int) {
+	root := filepath.Join(c.Scratch, fmt.Sprintf("c03auth-%d", i))
+	os.MkdirAll(root, 0755)
+	defer os.RemoveAll(root)
+	auth := srv.SimpleAuth{Key: c14Key, PubRtmp: true, SubRtmp: true, SubHttpflv: true, SubHttpts: true, PubRtsp: true, SubRtsp: true, HlsM3u8: true}
+	conf := srv.Conf{RtmpGop: 1, Flv: true, FlvGop: 1, Ts: true, Hls: true, HlsFragMs: 1000, Rtsp: true, Api: true, Auth: auth}
+	s, err := srv.Start(conf, root)
+	if err != nil {
+		c.Inconclusive("server start: %v", err)
+		return
+	}
+	defer s.Stop()
+	c.Describe("refusals by access control on every protocol while an authorised publisher and players are attached")
+	c.Cell("auth-refusals")
+	e := &c14Env{c: c, s: s, cell: c14Flags{Name: "all", Auth: auth}, bg: fmt.Sprintf("ar%d", i)}
+	pub, err := c14StartBg(s, e.bg, "lal_secret="+c14Secret(e.bg), c.SubRng("bg"))
+	if err != nil {
+		c.Inconclusive("authorised publisher: %v", err)
+		return
+	}
+	k := 0
+	outcomes := map[string]int{}
+	for round := 0; round < 2; round++ {
+		for _, proto := range c14Protos {
+			for _, q := range []string{"", "lal_secret=00112233445566778899aabbccddeeff", "lal_secret=" + c14Secret(e.bg+"x"), "RIGHT"} {
+				k++
+				stream := e.bg
+				if proto == "rtmp-pub" {
+					stream = fmt.Sprintf("%s_p%d", e.bg, k)
+				}
+				if proto == "rtsp-pub" {
+					stream = fmt.Sprintf("%s_rp%d", e.bg, k)
+				}
+				if q == "RIGHT" {
+					q = "lal_secret=" + c14Secret(stream)
+				}
+				out, _ := e.attempt(proto, q, k)
+				outcomes[out.String()]++
+				c.Eval(1)
+			}
+		}
+	}
+	pub.Close()
+	time.Sleep(600 * time.Millisecond)
+	c.Count("auth_attempts_refused", outcomes["refused"])
+	c.Count("auth_attempts_admitted", outcomes["admitted"])
+	if outcomes["refused"] < 10 || outcomes["admitted"] < 5 {
+		c.Inconclusive("too few decided attempts: %v", outcomes)
+		return
+	}
+	type st struct{ start, stop int }
+	by := map[string]*st{}
+	for _, ev := range s.Notify.Snapshot() {
+		var fam string
+		switch ev.Kind {
+		case "pub_start", "pub_stop":
+			fam = "pub"
+		case "sub_start", "sub_stop":
+			fam = "sub"
+		default:
+			continue
+		}
+		x := by[fam+"/"+ev.SessionId]
+		if x == nil {
+			x = &st{}
+			by[fam+"/"+ev.SessionId] = x
+		}
+		if strings.HasSuffix(ev.Kind, "_start") {
+			x.start++
+		} else {
+			x.stop++
+		}
+	}
+	c.Count("notification_sessions", len(by))
+	for key, x := range by {
+		fam := key[:strings.IndexByte(key, '/')]
+		bad := ""
+		switch {
+		case x.start > 1 || x.stop > 1:
+			bad = fmt.Sprintf("%d start and %d stop notifications", x.start, x.stop)
+		case x.stop == 1 && x.start == 0:
+			bad = "a stop notification without a start (a session refused by access control)"
+		case x.start == 1 && x.stop == 0:
+			bad = "started, connection gone, but no stop notification"
+		}
+		if bad != "" {
+			c.Violate("notify-pairing/"+fam+"/auth-refusal", fmt.Sprintf("session %s: %s | %d refused and %d admitted attempts over %v", key, bad, outcomes["refused"], outcomes["admitted"], c14Protos), nil)
+		}
+	}
+}
+
 // scenario 4: concurrent arrivals on one name, several rounds.
 func c03Race(c *fw.Ctx, i int) {
 	e := c03Start(c, i)
@@ -1850,6 +1947,7 @@ func init() {
 	for _, h := range []string{"rtmp", "rtsp", "customize", "pull"} {
 		cat = append(cat, sc{"subs", h, ""})
 	}
+	cat = append(cat, sc{"auth-refusals", "", ""})
 	for _, m := range []string{"announce-twice", "announce-other-stream", "announce-then-describe", "describe-twice"} {
 		cat = append(cat, sc{"rtsprepeat", m, ""})
 	}
@@ -1863,7 +1961,7 @@ func init() {
 			return nCat + 43
 		},
 		CaseTimeout: func(string) time.Duration { return 4 * time.Minute },
-		Rule:        "whole-server runs on one stream name with an RTMP and an HTTP-FLV witness attached throughout and HLS, FLV recording and the stream hook on. Inputs of five kinds (RTMP publisher, RTSP publisher, customize publisher, start_rtp_pub, relay pull from a scripted stub origin) publish frames tagged with their own id. Catalogue: 5×5 holder × intruder matrix (holder accepted and publishing; 1–2 intruders arrive, try to publish, leave; holder leaves by close or kick; the intruder kind arrives again and must now be admitted), a pull attempt kept in flight by the origin while each publisher kind arrives and is then overtaken, an RTSP relay pull (origin = lal's own RTSP server serving another stream, behind a TCP relay that holds back the DESCRIBE reply) overtaken by an RTMP / RTSP / customize publisher: the attempt must end refused and neither frames, nor sequence headers built from the origin's parameter sets, nor the origin's SDP (RTSP subscriber joining afterwards) may reach the stream, a pull attempt kept in flight across ≥3 of lal's ticks with nobody else on the name which then attaches and must be the one input (witnesses joining get its media, stat lists it, a publisher is refused), start_rtp_pub on a UDP / TCP port that is in use (failure reported → nothing attached, next publisher admitted), foreign subscribers of four protocols joining/leaving/kicked plus kicks of stale, made-up and wrong-family ids; plus seeded concurrent races of 2–4 actors released by a barrier over 3 rounds. Oracles: (1) porcupine linearizability of Acquire/Release operations (call = request sent, return = outcome observed via notification, reply or connection close) against a one-register model; (2) after every foreign event the holder publishes another GOP and both witnesses' histories restricted to the holder's tag must be an exact prefix of what it handed over, complete up to the depacketiser's slack; no unit of a refused input ever reaches a witness; the holder's stream hook is not told to stop; (3) notification pairing per session id (≤1 start, ≤1 stop, stop after start, no stop without start except for pull attempts, every started session stopped once all connections are closed); (4) stat API pub/pull session id = the attached input, listed subscribers were admitted. cell = scenario × kinds.",
+		Rule:        "whole-server runs on one stream name with an RTMP and an HTTP-FLV witness attached throughout and HLS, FLV recording and the stream hook on. Inputs of five kinds (RTMP publisher, RTSP publisher, customize publisher, start_rtp_pub, relay pull from a scripted stub origin) publish frames tagged with their own id. Catalogue: 5×5 holder × intruder matrix (holder accepted and publishing; 1–2 intruders arrive, try to publish, leave; holder leaves by close or kick; the intruder kind arrives again and must now be admitted), a pull attempt kept in flight by the origin while each publisher kind arrives and is then overtaken, an RTSP relay pull (origin = lal's own RTSP server serving another stream, behind a TCP relay that holds back the DESCRIBE reply) overtaken by an RTMP / RTSP / customize publisher: the attempt must end refused and neither frames, nor sequence headers built from the origin's parameter sets, nor the origin's SDP (RTSP subscriber joining afterwards) may reach the stream, a pull attempt kept in flight across ≥3 of lal's ticks with nobody else on the name which then attaches and must be the one input (witnesses joining get its media, stat lists it, a publisher is refused), start_rtp_pub on a UDP / TCP port that is in use (failure reported → nothing attached, next publisher admitted), publishers and players refused by access control (simple-auth on for every protocol, missing / wrong secrets) next to authorised ones - no notification at all for the refused, foreign subscribers of four protocols joining/leaving/kicked plus kicks of stale, made-up and wrong-family ids; plus seeded concurrent races of 2–4 actors released by a barrier over 3 rounds. Oracles: (1) porcupine linearizability of Acquire/Release operations (call = request sent, return = outcome observed via notification, reply or connection close) against a one-register model; (2) after every foreign event the holder publishes another GOP and both witnesses' histories restricted to the holder's tag must be an exact prefix of what it handed over, complete up to the depacketiser's slack; no unit of a refused input ever reaches a witness; the holder's stream hook is not told to stop; (3) notification pairing per session id (≤1 start, ≤1 stop, stop after start, no stop without start except for pull attempts, every started session stopped once all connections are closed); (4) stat API pub/pull session id = the attached input, listed subscribers were admitted. cell = scenario × kinds.",
 		Assumptions: []string{"an operation whose outcome is not observed within its bound makes the case inconclusive (never a violation)", "start_rtp_pub inputs publish no media (admission and stat only)"},
 		MinCells:    10,
 		Run: func(c *fw.Ctx, i int) {
@@ -1882,6 +1980,8 @@ func init() {
 					c03RtpPubBusyPort(c, i, x.a == "tcp")
 				case "rtsprepeat":
 					c03RtspRepeat(c, i, x.a)
+				case "auth-refusals":
+					c03AuthRefusals(c, i)
 				default:
 					c03ForeignSubs(c, i, x.a)
 				}
